@@ -17,6 +17,7 @@ def main():
     chk = core.Check(a.pid, a.tier)
     try:
         if a.replay:
+            chk.is_replay = True          # a replay does not overwrite the check's evidence file
             return mod.replay(a.replay, chk)
         if a.selftest:
             return mod.selftest(chk)
